@@ -402,6 +402,11 @@ VIOLATE = {
     't1 >= 0': dict(ties1=-0.5), 't1 <= 1': dict(ties1=1.5), 't2 >= 0': dict(ties2=-0.5), 't2 <= 1': dict(ties2=1.5),
     'uq >= n2': dict(upperquotas=2, lowerquotas=1), 'lq <= uq': dict(lowerquotas=6), 'lt <= luq': dict(lecturertargets=5), 'llq <= lt': dict(lecturerlowerquotas=3),
 }
+VIOLATE_ZERO = {
+    'uq >= n2': [dict(upperquotas=0, lowerquotas=0)], 'lt <= luq': [dict(lecturerupperquotas=0, lecturertargets=1, lecturerlowerquotas=0)],
+    'lq <= uq': [dict(upperquotas=0, lowerquotas=1)], 'llq <= lt': [dict(lecturertargets=0, lecturerlowerquotas=1)], 'pmin <= pmax': [dict(maxpreflistlength=0, minpreflistlength=1)],
+    'pmax <= n2': [],
+}
 # legal valuations on the boundary of the documented bounds (must be accepted)
 BOUNDARY = [
     dict(n1=1, minpreflistlength=1, maxpreflistlength=1), dict(maxpreflistlength=3, minpreflistlength=3), dict(n1=2, n2=5, maxpreflistlength=4, upperquotas=6),
@@ -533,24 +538,26 @@ def semantic_tables(rep, repo, pf, table, T, mpval, effs, it):
         for name, viol in spec.GEN_BOUNDS:
             if T not in APPLIES.get(name, tuple(TYPES)):
                 continue
-            ov = VIOLATE.get(name)
-            if ov is None:
+            ov0 = VIOLATE.get(name)
+            if ov0 is None:
                 continue
-            v = base(True)
-            ov = dict(ov)
-            if T == 'SM' and name == 'pmax <= n2':
-                ov = dict(maxpreflistlength=5)              # n2 is n1 = 4 for SM
-            if not set(ov) <= set(v) | {'n1'}:
-                continue
-            v.update({k: x for k, x in ov.items() if k in v})
-            n_val += 1
-            verdict, e, _ = run_one(v)
-            if verdict != 'refused':
-                problems += 1
-                rep.fail('C15.R4', pf.where, 'bound %s is enforced for problem type %s' % (name, T), got='accepted: ' + show_vals(v), want='if %s: parser.error(...)' % viol,
-                         construct='bound %s not enforced for %s' % (name, T))
-            else:
-                rep.ok('C15.R4', e.where, 'bound %s is enforced for %s' % (name, T), got='refused by %s' % show(e.term)[:80], loc=e.loc)
+            # the violating valuation, and the ones in which the offending value is 0 (falsy: `if x and x < n` skips the test)
+            for ov in [ov0] + VIOLATE_ZERO.get(name, []):
+                v = base(True)
+                ov = dict(ov)
+                if T == 'SM' and name == 'pmax <= n2':
+                    ov = dict(maxpreflistlength=5)              # n2 is n1 = 4 for SM
+                if not set(ov) <= set(v) | {'n1'}:
+                    continue
+                v.update({k: x for k, x in ov.items() if k in v})
+                n_val += 1
+                verdict, e, _ = run_one(v)
+                if verdict != 'refused':
+                    problems += 1
+                    rep.fail('C15.R4', pf.where, 'bound %s is enforced for problem type %s' % (name, T), got='accepted: ' + show_vals(v), want='if %s: parser.error(...)' % viol,
+                             construct='bound %s not enforced for %s' % (name, T))
+                else:
+                    rep.ok('C15.R4', e.where, 'bound %s is enforced for %s' % (name, T), got='refused by %s' % show(e.term)[:80], loc=e.loc)
     except Raises as r:
         rep.fail('C15.R3', pf.where, 'option checks never compare or compute with an absent value %s' % cfg, got=str(r), want='a parser error or acceptance, never an exception',
                  construct='option checking raises %s' % cfg)
